@@ -179,6 +179,9 @@ def extra_cases():
                     ops = ["new %s%s nk=%d" % (ty, flags, nk)] + (["insk"] if first else []) + ["ins %d" % k for k in b] + ([] if first else ["insk"])
                     cases.append(ops + ["shape", "getn", "get %d" % nk, "each 0", "remn", "shape", "getn", "remn", "each 0", "inskv", "getn", "each 3", "free"])
                     cases.append(ops + ["rem %d" % nk, "shape", "getn", "insk", "ins %d" % nk, "each 0", "shape", "remn", "clear", "getn", "free"])
+            # creation while the allocator is out of memory: NULL; the old tree is gone, the next creation works
+            cases.append(["new %s%s" % (ty, flags), "ins 1", "ins 2", "newf %s%s" % (ty, flags), "count", "ins 3", "new %s%s" % (ty, flags), "ins 3", "shape", "count", "each 0", "free"])
+            cases.append(["newf %s%s" % (ty, flags), "ins 1", "free", "new %s%s" % (ty, flags), "ins 1", "count", "newf %s%s wide" % (ty, flags), "new %s%s" % (ty, flags), "count", "ins 2", "shape", "clear"])
             # allocation failure on the empty tree and right after clear
             cases.append(["new %s%s" % (ty, flags), "insf 1", "shape", "count", "each 0", "ins 1", "insf 1", "insf 2", "shape", "clear", "insf 3", "shape", "ins 3", "free"])
         # every stop point of a traversal of a 15- and a 31-node tree (threads at several depths are live when it stops)
